@@ -1048,3 +1048,27 @@ Proof.
 Qed.
 
 End DkgProofs.
+
+(* ---- every labelled matrix with D columns (every MSP the library can build) is a linear sharing
+   in the sense of the theorems above ---------------------------------------------------------------- *)
+Lemma lrows_wf : forall {F : Type} (M : list (list F)) (labels : list N) (D : nat),
+  Forall (fun r => length r = D) M -> forall h, Forall (fun r => length r = D) (lrows M labels h).
+Proof.
+  intros F M labels D HM h. unfold lrows. rewrite Forall_forall in *. intros r Hr.
+  apply in_map_iff in Hr. destruct Hr as ([l r'] & Heq & Hin). cbn [snd] in Heq. subst r'.
+  apply filter_In in Hin. destruct Hin as [Hin _]. apply in_combine_r in Hin. now apply HM.
+Qed.
+
+Corollary gennaro_reconstructs_dlog_msp : forall (F : Type) (K : fops F), flaws K ->
+  forall (g : F) (M : list (list F)) (labels : list N) (D : nat),
+  Forall (fun r => length r = D) M ->
+  forall (holders : list N) (parties : list (N * list F)) (S : list N) (lam shareof : N -> list F) (i0 : N) (s0 : shard),
+  NoDup (map fst parties) -> (forall j, In j (map fst parties) -> In j holders) ->
+  In (i0, Ok s0) (gennaro_run K (lrows M labels) D g holders parties) ->
+  (forall i, In i S -> exists s, In (i, Ok s) (gennaro_run K (lrows M labels) D g holders parties) /\ shareof i = sh_share s) ->
+  recon_ok K (lrows M labels) D S lam = true ->
+  recon_value K S lam shareof = secret_sum K parties /\ sh_pk s0 = fmul K (secret_sum K parties) g.
+Proof.
+  intros F K HK g M labels D HM. apply (gennaro_reconstructs_dlog K HK g (lrows M labels) D).
+  now apply lrows_wf.
+Qed.
